@@ -53,6 +53,8 @@ func VerifC19_ModelSelfTest() {
 	}
 	vObserve("indexrune", strings.IndexRune(s, 'é'))
 	vObserve("containsrune", strings.ContainsRune(s, '='))
+	vObserve("equalfold", strings.EqualFold(s, "false"))
+	vObserve("equalfold-k", strings.EqualFold("ok", s))
 	_, have := os.LookupEnv("VERIF_NOT_SET_ANYWHERE")
 	vObserve("lookupenv", have)
 	vObserve("runes", utf8.RuneCountInString("héllo"))
